@@ -167,7 +167,8 @@ theorem parse_numeric3_text (a b yy tm : List Char) (s1 s2 : Char) (hms us : Int
 /-- ANY year-first text `yyyy<sep>m<sep>d[ time]` — month and day of one or two digits, padded or not, any two of the four
 separators, any time suffix — is read as its fields, in that order (round k3: `iso_any_sep`) -/
 theorem parse_iso_any_text (yy mm dd tm : List Char) (s1 s2 : Char) (hms us : Int) (hy : IsNumeral 4 yy) (hy4 : yy.length = 4)
-    (hm : IsNumeral 2 mm) (hd : IsNumeral 2 dd) (h1 : isDateSep s1 = true) (h2 : isDateSep s2 = true) (ht : TimeText tm hms us) :
+    (hm : IsNumeral 2 mm) (hd : IsNumeral 2 dd) (h1 : isDateSep s1 = true) (h2 : isDateSep s2 = true)
+    (hdot : s1 = s2 ∨ (s1 ≠ '.' ∧ s2 ≠ '.')) (ht : TimeText tm hms us) :
     parseCs (yy ++ s1 :: (mm ++ s2 :: (dd ++ tm))) = some ⟨false, 0, digitsVal yy, digitsVal mm, digitsVal dd, hms, us⟩ := by
   have p1 := sep_props s1 h1
   have p2 := sep_props s2 h2
@@ -185,12 +186,12 @@ theorem parse_iso_any_text (yy mm dd tm : List Char) (s1 s2 : Char) (hms us : In
   have hdl : dd.length = 1 ∨ dd.length = 2 := by have := hd.2.1; omega
   have h12 : (1 : Nat) ≤ 2 := by omega
   rcases hdl with e | e <;>
-    simp only [parseTokens, hy4, e, hm', h1, h2, and_self, if_true, pt, mk, Option.map_some, Nat.le_refl, h12, true_and, and_true]
+    simp only [parseTokens, hy4, e, hm', h1, h2, hdot, and_self, if_true, pt, mk, Option.map_some, Nat.le_refl, h12, true_and, and_true]
 
 /-- ANY ISO text `yyyy-mm-dd[ time]` is read as its fields -/
 theorem parse_iso_text (yy mm dd tm : List Char) (hms us : Int) (hy : IsNumeral 4 yy) (hy4 : yy.length = 4)
     (hm : IsNumeral 2 mm) (hm2 : mm.length = 2) (hd : IsNumeral 2 dd) (hd2 : dd.length = 2) (ht : TimeText tm hms us) :
     parseCs (yy ++ '-' :: (mm ++ '-' :: (dd ++ tm))) = some ⟨false, 0, digitsVal yy, digitsVal mm, digitsVal dd, hms, us⟩ :=
-  parse_iso_any_text yy mm dd tm '-' '-' hms us hy hy4 hm hd (by decide) (by decide) ht
+  parse_iso_any_text yy mm dd tm '-' '-' hms us hy hy4 hm hd (by decide) (by decide) (Or.inl rfl) ht
 
 end Pyg.DateParse
